@@ -159,7 +159,17 @@ def unresolved_cycles(g):
     """Graph-level specification of C06: the cycles no connection resolves."""
     pl = g["placement"]
     n = len(pl)
-    valid = [c for c in g["conns"] if not (c["kind"] == "weak" and common_len(pl[c["src"]], pl[c["dst"]]) == 0)]
+    def fl(c):
+        return c["kind"].split("+")
+    valid = []
+    for c in g["conns"]:
+        if "weak" in fl(c) and common_len(pl[c["src"]], pl[c["dst"]]) == 0:
+            # the weak attribute pair is rejected (no common group); World.connect still registers the async-requests part of the
+            # call before it raises (valid parts of a connect call take effect, the errors are reported at the end)
+            if "async" in fl(c):
+                valid.append(dict(c, kind="async"))
+            continue
+        valid.append(c)
     hops = sorted(set((c["src"], c["dst"]) for c in valid))
     res = []
     for cyc in simple_cycles(n, hops):
@@ -171,9 +181,9 @@ def unresolved_cycles(g):
             for c in valid:
                 if c["src"] != a or c["dst"] != b:
                     continue
-                if c["kind"] in ("plain", "async"):
-                    through = True
-                elif c["kind"] == "weak":
+                if c["kind"] == "plain" or "async" in fl(c):
+                    through = True          # an async-requests connection is a zero-delay edge whatever else the call asks for
+                elif "weak" in fl(c):
                     cl = common_len(pl[a], pl[b])
                     inside = all(len(pl[v]) >= cl and pl[v][:cl] == pl[a][:cl] for v in cyc)
                     if not inside:
